@@ -153,17 +153,17 @@ theorem foldl_min_add (l : List α) (a c : α) :
     simp only [List.map_cons, List.foldl_cons]
     rw [min_add_add_right, ih]
 
-theorem listMax_add (l : List α) (c : α) :
-    Impl.listMax (l.map (· + c)) = (Impl.listMax l).map (· + c) := by
+theorem colMax_add (l : List α) (c : α) :
+    Impl.colMax (l.map (· + c)) = (Impl.colMax l).map (· + c) := by
   cases l with
   | nil => rfl
-  | cons a l => simp [Impl.listMax, foldl_max_add]
+  | cons a l => simp [Impl.colMax, foldl_max_add]
 
-theorem listMin_add (l : List α) (c : α) :
-    Impl.listMin (l.map (· + c)) = (Impl.listMin l).map (· + c) := by
+theorem colMin_add (l : List α) (c : α) :
+    Impl.colMin (l.map (· + c)) = (Impl.colMin l).map (· + c) := by
   cases l with
   | nil => rfl
-  | cons a l => simp [Impl.listMin, foldl_min_add]
+  | cons a l => simp [Impl.colMin, foldl_min_add]
 
 theorem map_fst_shift (grid : List (α × α)) (d : α × α) :
     (grid.map (shiftPt d)).map (·.1) = (grid.map (·.1)).map (· + d.1) := by
@@ -176,9 +176,9 @@ theorem map_snd_shift (grid : List (α × α)) (d : α × α) :
 theorem gridCentre_shift (grid : List (α × α)) (d : α × α) :
     Impl.gridCentre (grid.map (shiftPt d)) = (Impl.gridCentre grid).map (shiftPt d) := by
   unfold Impl.gridCentre
-  rw [map_fst_shift, map_snd_shift, listMax_add, listMin_add, listMax_add, listMin_add]
-  cases Impl.listMax (grid.map (·.1)) <;> cases Impl.listMin (grid.map (·.1)) <;>
-    cases Impl.listMax (grid.map (·.2)) <;> cases Impl.listMin (grid.map (·.2)) <;>
+  rw [map_fst_shift, map_snd_shift, colMax_add, colMin_add, colMax_add, colMin_add]
+  cases Impl.colMax (grid.map (·.1)) <;> cases Impl.colMin (grid.map (·.1)) <;>
+    cases Impl.colMax (grid.map (·.2)) <;> cases Impl.colMin (grid.map (·.2)) <;>
     simp [shiftPt]
   constructor <;> ring
 
@@ -235,11 +235,71 @@ theorem overlayMeshGeom_shift (grid : List (α × α)) (ms : Nat × Nat) (buffer
     Impl.overlayMeshGeom (grid.map (shiftPt d)) ms buffer
       = (Impl.overlayMeshGeom grid ms buffer).map (·.shift d) := by
   unfold Impl.overlayMeshGeom
-  rw [map_fst_shift, map_snd_shift, listMax_add, listMin_add, listMax_add, listMin_add]
-  cases Impl.listMax (grid.map (·.1)) <;> cases Impl.listMin (grid.map (·.1)) <;>
-    cases Impl.listMax (grid.map (·.2)) <;> cases Impl.listMin (grid.map (·.2)) <;>
+  rw [map_fst_shift, map_snd_shift, colMax_add, colMin_add, colMax_add, colMin_add]
+  cases Impl.colMax (grid.map (·.1)) <;> cases Impl.colMin (grid.map (·.1)) <;>
+    cases Impl.colMax (grid.map (·.2)) <;> cases Impl.colMin (grid.map (·.2)) <;>
     simp [Geom.shift]
   refine ⟨⟨?_, ?_⟩, ⟨?_, ?_⟩⟩ <;> ring
+
+/-! ### radial projection -/
+
+theorem radial_line_shift (n : Nat) (cy ps dy dx : α) (acc : List (α × α)) (r : α) :
+    ((List.range n).foldl
+        (fun (st : List (α × α) × α) _ => (st.1 ++ [(cy + dy, st.2)], st.2 + ps))
+        (acc.map (shiftPt (dy, dx)), r + dx))
+      = ((((List.range n).foldl
+        (fun (st : List (α × α) × α) _ => (st.1 ++ [(cy, st.2)], st.2 + ps)) (acc, r)).1).map
+          (shiftPt (dy, dx)),
+         ((List.range n).foldl
+        (fun (st : List (α × α) × α) _ => (st.1 ++ [(cy, st.2)], st.2 + ps)) (acc, r)).2 + dx) := by
+  generalize List.range n = l
+  induction l generalizing acc r with
+  | nil => rfl
+  | cons a l ih =>
+    simp only [List.foldl_cons]
+    have h1 : (List.map (shiftPt (dy, dx)) acc ++ [(cy + dy, r + dx)])
+        = List.map (shiftPt (dy, dx)) (acc ++ [(cy, r)]) := by
+      simp [shiftPt]
+    have h2 : r + dx + ps = r + ps + dx := by ring
+    rw [h1, h2]
+    exact ih (acc ++ [(cy, r)]) (r + ps)
+
+theorem radialProjected_shift (trunc : α → Int) (rot : α × α → α × α) (ext : α × α × α × α)
+    (s c d : α × α) (shapeSlim : Nat) :
+    Impl.radialProjected trunc rot (ext.1 + d.2, ext.2.1 + d.2, ext.2.2.1 + d.1, ext.2.2.2 + d.1) s
+        (c.1 + d.1, c.2 + d.2) shapeSlim
+      = (Impl.radialProjected trunc rot ext s c shapeSlim).map (shiftPt d) := by
+  unfold Impl.radialProjected
+  simp only
+  have e1 : ext.2.1 + d.2 - (c.2 + d.2) = ext.2.1 - c.2 := by ring
+  have e2 : ext.2.2.2 + d.1 - (c.1 + d.1) = ext.2.2.2 - c.1 := by ring
+  have e3 : c.2 + d.2 - (ext.1 + d.2) = c.2 - ext.1 := by ring
+  have e4 : c.1 + d.1 - (ext.2.2.1 + d.1) = c.1 - ext.2.2.1 := by ring
+  rw [e1, e2, e3, e4]
+  have hline := radial_line_shift
+    (if shapeSlim = 0 then
+      (trunc (max (max (max (ext.2.1 - c.2) (ext.2.2.2 - c.1)) (c.2 - ext.1)) (c.1 - ext.2.2.1) /
+        if max (max (max (ext.2.1 - c.2) (ext.2.2.2 - c.1)) (c.2 - ext.1)) (c.1 - ext.2.2.1)
+            = ext.2.2.2 - c.1 ∨
+          max (max (max (ext.2.1 - c.2) (ext.2.2.2 - c.1)) (c.2 - ext.1)) (c.1 - ext.2.2.1)
+            = c.1 - ext.2.2.1 then s.1 else s.2)).toNat + 1
+     else shapeSlim)
+    c.1
+    (if max (max (max (ext.2.1 - c.2) (ext.2.2.2 - c.1)) (c.2 - ext.1)) (c.1 - ext.2.2.1)
+          = ext.2.2.2 - c.1 ∨
+        max (max (max (ext.2.1 - c.2) (ext.2.2.2 - c.1)) (c.2 - ext.1)) (c.1 - ext.2.2.1)
+          = c.1 - ext.2.2.1 then s.1 else s.2)
+    d.1 d.2 [] c.2
+  simp only [List.map_nil] at hline
+  rw [hline]
+  simp only [List.map_map]
+  apply List.map_congr_left
+  intro p _
+  simp only [Function.comp, shiftPt]
+  have a1 : p.1 + d.1 - (c.1 + d.1) = p.1 - c.1 := by ring
+  have a2 : p.2 + d.2 - (c.2 + d.2) = p.2 - c.2 := by ring
+  rw [a1, a2]
+  refine Prod.ext ?_ ?_ <;> simp only <;> ring
 
 theorem rectangularPixIndexes_shift (trunc : α → Int) (mesh : Geom α) (grid : List (α × α))
     (d : α × α) (hs1 : mesh.s.1 ≠ 0) (hs2 : mesh.s.2 ≠ 0) :
